@@ -29,12 +29,25 @@ Laws
           members survive per the scalar rule; ValueError iff nothing survives or a
           member's own annotation is a ValueError.
   typevar D[TypeVar(bound=B), s] == D[B, s]; D[TypeVar(c1, c2), s] == D[Union[c1,c2], s];
-          D[TypeVar(), s] == D[Any, s].
+          D[TypeVar(), s] == D[Any, s].  A PEP 696 default (typing_extensions.TypeVar(...,
+          default=X)) changes none of the three readings: every kind of TypeVar is also built
+          with defaults (an array class, a scalar type, a union, a nested annotation, Any,
+          None) that differ from what the TypeVar stands for.
   scalar  D[t, s] for t in bool/int/float/complex/np.bool_/np.number is `t` itself
           iff every axis of s is multi-axis and D contains t's kind, else ValueError.
   alias   Scalar, ScalarLike, PRNGKeyArray == their definitions in docs/api/array.md
           (and == a direct predicate on jax arrays), plus the two documented nested
           uses Shaped[PRNGKeyArray, "2"] and Int[Scalar, ""].
+
+Process isolation and history.  The instances of one group (one job) are evaluated in a fixed
+order in ONE process that nothing else has used: every group runs in a fork of the worker made
+before any annotation is built.  So what an instance does (refused nested builds with an empty
+dtype intersection or two multi-axis specifiers, ...) can only reach the later instances of its
+own group -- which share its array type and dim strings -- and the outcome of a run does not
+depend on how groups are handed to workers.  A violation that needs that history is replayed
+by re-running the group up to the failing instance.  An annotation that an instance merely needs
+as an ingredient (a member of a union, the bound of a TypeVar: all of them legal) and that
+cannot be built is reported as a violation of that instance, never as a harness error.
 """
 from __future__ import annotations
 
@@ -98,7 +111,49 @@ TYPEVARS = [
     ("constraints", ["union|ndarray|Duck", "float"]),  # a constraint that is itself a union (X | Y)
     ("constraints", ["Union|Duck|Duck2", "ndarray"]),  # ... spelled typing.Union[...]
     ("free", []),
+    # PEP 696 defaults: (kind, names, default).  The default never is what the TypeVar stands for.
+    ("free", [], "ndarray"),
+    ("free", [], "Duck"),
+    ("free", [], "float"),
+    ("free", [], "Union|ndarray|int"),
+    ("free", [], "nest:Float:Duck:a"),
+    ("free", [], "None"),
+    ("free", [], "Any"),
+    ("bound", ["ndarray"], "Duck"),
+    ("bound", ["Duck"], "float"),
+    ("bound", ["union", "ndarray", "Duck"], "Duck"),
+    ("bound", ["float"], "ndarray"),
+    ("bound", ["Any"], "ndarray"),
+    ("constraints", ["ndarray", "Duck"], "Duck"),
+    ("constraints", ["Duck", "float"], "float"),
+    ("constraints", ["int", "float"], "ndarray"),
+    ("constraints", ["Duck", "nest:Float:ndarray:a"], "Any"),
 ]
+
+
+class Ingredient(Exception):
+    """An annotation / category that a law instance needs on one of its sides (and that is legal
+    by the reference) could not be made by the implementation."""
+
+
+def make_typevar(name, *constraints, bound=None, default=None, has_default=False):
+    """typing.TypeVar, or -- with a PEP 696 default -- typing_extensions.TypeVar (typing.TypeVar
+    itself from Python 3.13)."""
+    import sys
+    import typing
+
+    if not has_default:
+        return typing.TypeVar(name, *constraints, bound=bound)
+    if sys.version_info >= (3, 13):
+        return typing.TypeVar(name, *constraints, bound=bound, default=default)
+    try:
+        import typing_extensions
+    except ImportError as e:
+        raise common.HarnessError(f"typing_extensions is needed for TypeVars with defaults: {e}")
+    tv = typing_extensions.TypeVar(name, *constraints, bound=bound, default=default)
+    if not (isinstance(tv, typing.TypeVar) and tv.has_default()):
+        raise common.HarnessError("typing_extensions.TypeVar(default=...) did not make a typing.TypeVar with a default")
+    return tv
 
 
 def _axes(s):
@@ -194,6 +249,14 @@ class Env:
 
     # -- objects from names
     def cat(self, name):
+        try:
+            return self._cat(name)
+        except (common.HarnessError, KeyError, AttributeError):
+            raise
+        except Exception as e:  # noqa: BLE001 -- documented extension points
+            raise Ingredient(f"the category {name} (documented extension point) could not be declared: {type(e).__name__}: {e}"[:300])
+
+    def _cat(self, name):
         if name.startswith("user:"):
             if name not in self.fresh:
                 import re
@@ -218,7 +281,11 @@ class Env:
         np = self.np
         if name.startswith("nest:"):
             _, c, a, s = name.split(":")
-            return self.cat(c)[self.atom(a), s]
+            cat, inner = self.cat(c), self.atom(a)
+            try:
+                return cat[inner, s]
+            except Exception as e:  # noqa: BLE001 -- every nest: ingredient is a legal annotation
+                raise Ingredient(f"the ingredient {c}[{a}, {s!r}] (a legal annotation) could not be built: {type(e).__name__}: {e}"[:300])
         if name.startswith("union|") or name.startswith("Union|"):
             parts = [self.atom(x) for x in name.split("|")[1:]]
             if name.startswith("Union|"):
@@ -235,7 +302,7 @@ class Env:
                 ns.__module__ = self.Duck.__module__
                 self._namesake = ns
             return self._namesake
-        return {"Duck": self.Duck, "Duck2": self.Duck2, "ndarray": np.ndarray, "Any": self.typing.Any, "bool": bool, "int": int, "float": float, "complex": complex, "np.bool_": np.bool_, "np.number": np.number}[name]
+        return {"Duck": self.Duck, "Duck2": self.Duck2, "ndarray": np.ndarray, "Any": self.typing.Any, "bool": bool, "int": int, "float": float, "complex": complex, "np.bool_": np.bool_, "np.number": np.number, "None": None}[name]
 
     def fresh_cat(self, memb):
         """A fresh user category for a reference membership set."""
@@ -246,7 +313,10 @@ class Env:
                 body = dict(dtypes=re.compile(".*", re.DOTALL))
             else:
                 body = dict(dtypes=sorted(rd.concrete(d) for d in memb))
-            self.fresh[memb] = type(self.jt.AbstractDtype)(f"Ref{len(self.fresh)}", (self.jt.AbstractDtype,), body)
+            try:
+                self.fresh[memb] = type(self.jt.AbstractDtype)(f"Ref{len(self.fresh)}", (self.jt.AbstractDtype,), body)
+            except Exception as e:  # noqa: BLE001
+                raise Ingredient(f"a user category listing {body['dtypes']!r} (documented extension point) could not be declared: {type(e).__name__}: {e}"[:300])
         return self.fresh[memb]
 
     def build(self, thunk):
@@ -430,9 +500,11 @@ def law_union(env, d, mi, s, spelling):
 
 
 def law_typevar(env, d, ti, s):
-    kind, names = TYPEVARS[ti]
+    kind, names, *dflt = TYPEVARS[ti]
     D = env.cat(d)
-    TypeVar, Union, Any = env.typing.TypeVar, env.typing.Union, env.typing.Any
+    Union = env.typing.Union
+    # a PEP 696 default does not change what the TypeVar stands for (the right side ignores it)
+    kw = dict(has_default=True, default=env.atom(dflt[0])) if dflt else {}
 
     if kind == "bound":
         if names[0] == "union":
@@ -441,13 +513,13 @@ def law_typevar(env, d, ti, s):
         else:
             members = names
             b = env.atom(names[0])
-        tv = TypeVar("T", bound=b)
+        tv = make_typevar("T", bound=b, **kw)
     elif kind == "constraints":
         members = names
-        tv = TypeVar("T", *[env.atom(m) for m in names])
+        tv = make_typevar("T", *[env.atom(m) for m in names], **kw)
     else:
         members = ["Any"]
-        tv = TypeVar("T")
+        tv = make_typevar("T", **kw)
     lhs = env.build(lambda: D[tv, s])
     # right side: the documented reading, built without a TypeVar
     if len(members) == 1 and members[0] not in rd.SCALAR_KIND:
@@ -501,8 +573,8 @@ def instance_key(kind, p):
         return f"C15:union:{d}[{sp}[{','.join(UNION_MEMBERS[mi])}],{s!r}]"
     if kind == "typevar":
         d, ti, s = p
-        k, n = TYPEVARS[ti]
-        return f"C15:typevar:{d}[TypeVar({k}:{','.join(n)}),{s!r}]"
+        k, n, *dflt = TYPEVARS[ti]
+        return f"C15:typevar:{d}[TypeVar({k}:{','.join(n)}{';default=' + dflt[0] if dflt else ''}),{s!r}]"
     if kind == "scalar":
         d, t, s = p
         return f"C15:scalar:{d}[{t},{s!r}]"
@@ -540,14 +612,35 @@ def space(tier):
     return groups
 
 
+def judge(env, kind, p):
+    """One law instance.  -> (problem or None, nontrivial)"""
+    try:
+        return LAWS[kind](env, *p)
+    except Ingredient as e:
+        return str(e), True
+
+
 def _run_group(job):
     common.bind_repo()
+    # everything a group imports, imported before the fork (no annotation is built by that)
+    import typing  # noqa: F401
+
+    import numpy  # noqa: F401
+
+    import jaxtyping  # noqa: F401
+    from .. import adapter  # noqa: F401
+    from ..fixtures import c14_probe
+
+    return c14_probe.in_fork(_run_group_here, job)
+
+
+def _run_group_here(job):
     env = Env(job["quick"])
     stats = dict(instances=0, nontrivial=0, expected_error=0)
     per = {}
     viols, samples = [], []
-    for kind, p in job["items"]:
-        prob, nontriv = LAWS[kind](env, *p)
+    for k, (kind, p) in enumerate(job["items"]):
+        prob, nontriv = judge(env, kind, p)
         stats["instances"] += 1
         fam = kind + "@names" if kind in ("nest", "nest3") and p[-1] == "names" else kind
         per[fam] = per.get(fam, 0) + 1
@@ -555,7 +648,7 @@ def _run_group(job):
             stats["nontrivial"] += 1
         if prob is not None and len(viols) < 60:
             key = instance_key(kind, p)
-            viols.append(Violation(key=key, what=f"{key[4:]}: {prob}", replay=dict(kind=kind, params=list(p), quick=job["quick"])).to_json())
+            viols.append(Violation(key=key, what=f"{key[4:]}: {prob}", replay=dict(kind=kind, params=list(p), quick=job["quick"], group=job["group"], index=k)).to_json())
         if prob is None and nontriv and len(samples) < 1:
             samples.append(dict(law=kind, instance=instance_key(kind, p)[4:], outcome="both sides agree"))
     stats["checks"] = env.prober.checks
@@ -661,7 +754,7 @@ def run_aliases():
 def run(ctx):
     groups = space(ctx.tier)
     # order jobs big-first for balance; the seed only rotates
-    jobs = [dict(items=g, quick=ctx.quick) for g in groups]
+    jobs = [dict(items=g, quick=ctx.quick, group=gi) for gi, g in enumerate(groups)]
     r = ctx.seed % len(jobs)
     jobs_run = jobs[r:] + jobs[:r]
     outs = common.pmap(_run_group, jobs_run)
@@ -697,7 +790,7 @@ def run(ctx):
         contexts=[c for c, _ in CONTEXTS],
         bounds=("8" if ctx.quick else "16")
         + " categories (all ordered pairs) x 8x8 dim strings x {Duck, np.ndarray, Any}; 3-level nesting over 4 categories x 4 dim strings; "
-        "11 unions x 2 spellings, 12 TypeVars, 6 scalar types x 10 dim strings x categories; 7 alias laws; probes: Duck x "
+        f"{len(UNION_MEMBERS)} unions x 2 spellings, {len(TYPEVARS)} TypeVars ({sum(1 for t in TYPEVARS if len(t) == 3)} of them with a PEP 696 default: free / bound / constrained), 6 scalar types x 10 dim strings x categories; 7 alias laws; probes: Duck x "
         + str(1 + len(DUCK_DTYPES_QUICK if ctx.quick else rd.UNIVERSE))
         + " dtype names x 15 shapes, ndarray x 7 dtypes x 15 shapes, 13 scalars/non-arrays, 3 contexts + sequel; "
         "'names' family (colliding dtype names) of the nesting laws: all ordered pairs of "
@@ -742,7 +835,24 @@ def replay(rep):
         viols, *_ = run_aliases()
         mine = [v.what for v in viols if v.key == f"C15:alias:{rep['name']}"]
         return dict(violates=bool(mine), problems=mine)
-    env = Env(rep.get("quick", True))
+    quick = rep.get("quick", True)
     p = [tuple(x) if isinstance(x, list) else x for x in rep["params"]]
-    prob, _ = LAWS[rep["kind"]](env, *p)
-    return dict(violates=prob is not None, instance=instance_key(rep["kind"], p), problem=prob)
+    if rep.get("alone_only") or "group" not in rep:
+        prob, _ = judge(Env(quick), rep["kind"], p)
+        return dict(violates=prob is not None, instance=instance_key(rep["kind"], p), problem=prob)
+    # first the instance alone, in a process of its own ...
+    from ..fixtures.c14_probe import in_fork
+
+    alone = in_fork(replay, dict(rep, alone_only=True))
+    if alone["violates"]:
+        return alone
+    # ... then after the earlier instances of its group (same process, same order as in the run)
+    items = space("quick" if quick else "thorough")[rep["group"]]
+    k = rep["index"]
+    if k >= len(items) or items[k][0] != rep["kind"] or list(items[k][1]) != list(p):
+        raise common.HarnessError("the replay file does not belong to this version of the explored space")
+    env = Env(quick)
+    prob = None
+    for kind, q in items[: k + 1]:
+        prob, _ = judge(env, kind, q)
+    return dict(violates=prob is not None, instance=instance_key(rep["kind"], p), problem=prob, needs_history=f"only after the {k} earlier instances of group {rep['group']} ran in the same process")
